@@ -233,7 +233,9 @@ def r144(ctx, fx):
         ("mos_core::codegen::analysis::Definition::try_get_usage_containing", "find"): "usages of one definition do not overlap: at most one contains a position",
         ("mos_core::codegen::analysis::Analysis::find_filter", "sorted_by"): "sorted by (length of the narrowest matching span, DefinitionType); the DefinitionType is the "
                                                                                "key of the map the entries come from, hence unique: a total order",
-        ("mos::lsp::rename::RenameHandler", "find"): "looks up the one child of the defining scope whose index is the renamed symbol's (its name there)",
+        ("mos::lsp::rename::rename_edits", "find"): "looks up the one child of the defining scope whose index is the renamed symbol's (its name there)",
+        ("mos::lsp::rename::rename_edits", "next"): "walks the per-usage traversal steps to rename the reached nodes in a private copy of the symbol table (every node gets the same "
+                                                    "new name: order-free); the new paths are collected into a map keyed by the usage",
     }
     n = 0
     for key, f, t, name, verdict, reason in classify(fx, for_c14=True):
